@@ -238,7 +238,7 @@ def build_model_driver():
     for f in [ml, os.path.join(COQ, "model.mli")] + drv_src:
         shutil.copy(f, d)
     order = ["model.mli", "model.ml"] + [os.path.basename(f) for f in drv_src if os.path.basename(f) != "driver.ml"] + ["driver.ml"]
-    rc, out = sh("ocamlfind ocamlopt -w -a -o driver " + " ".join(order), cwd=d, timeout=600)
+    rc, out = sh("ocamlfind ocamlopt -package str -linkpkg -w -a -o driver " + " ".join(order), cwd=d, timeout=600)
     if not os.path.exists(exe):
         raise RuntimeError("ocaml driver build failed:\n" + out[-3000:])
     prune(os.path.join(BUILD, "ocaml"), keep=3)
